@@ -29,7 +29,7 @@ BUDGET_S = {"quick": 240, "thorough": 2400}
 MIN_EVALS = {"quick": 2000, "thorough": 20000}
 
 PLAIN_SIZES = [0, 1, 2, 126, 127, 128, 129, 255, 256, 16383, 16384, 16385, 70000]
-NOISE_SIZES = [0, 1, 2, 127, 128, 255, 256, 4096, 65515]
+NOISE_SIZES = [0, 1, 2, 127, 128, 255, 256, 4096, 65512, 65513, 65514, 65515]
 
 
 def pay(n: int, salt: int) -> bytes:
@@ -48,10 +48,16 @@ def plain_batch(ctx: Ctx, batch: list[tuple[int, bytes]], label: str) -> None:
     res = ctx.res
     h, c, t, d = wire.make_plain()
     d.start()
-    h.write_packets(list(batch), res.evaluations % 2 == 1)   # every other batch with the library's debug flag on
+    case = {"framing": "plaintext", "batch": [(ty, len(p)) for ty, p in batch]}
+    try:
+        h.write_packets(list(batch), res.evaluations % 2 == 1)   # every other batch with the library's debug flag on
+    except Exception as e:  # noqa: BLE001
+        res.evaluations += 1
+        res.violation("C02/plain/batch-refused", f"write_packets raised {e!r} for a batch the documented format can carry (payload sizes "
+                      f"{[len(p) for _, p in batch][:6]})", case)
+        return
     res.evaluations += 1
     res.count(f"plain/{label}")
-    case = {"framing": "plaintext", "batch": [(ty, len(p)) for ty, p in batch]}
     if len(t.writes) != 1:
         res.violation("C02/writes-per-batch", f"{len(t.writes)} transport writes for one batch of {len(batch)}", case)
         return
@@ -110,7 +116,15 @@ class NoiseSession:
 
 def noise_batch(ctx: Ctx, s: NoiseSession, batch: list[tuple[int, bytes]], label: str) -> bool:
     res = ctx.res
-    s.h.write_packets(list(batch), res.evaluations % 2 == 1)   # every other batch with the library's debug flag on
+    try:
+        s.h.write_packets(list(batch), res.evaluations % 2 == 1)   # every other batch with the library's debug flag on
+    except Exception as e:  # noqa: BLE001
+        # every batch the format can carry IS written: a refusal of an in-domain batch (payloads <= 65515 bytes) is a batch not written
+        res.evaluations += 1
+        res.violation("C02/noise/batch-refused", f"write_packets raised {e!r} for a batch the documented format can carry (payload sizes "
+                      f"{[len(p) for _, p in batch][:6]})", {"framing": "noise", "batch": [(ty, len(p)) for ty, p in batch], "first_frame_no": s.frame_no})
+        s.nwrites = len(s.t.writes)
+        return False
     res.evaluations += 1
     res.count(f"noise/{label}")
     new = s.t.writes[s.nwrites:]
